@@ -156,7 +156,7 @@ func runC13(c *fw.Ctx) {
 	historyCases(c, "history", 600, 60000, probeNative)
 	c.Cases("shrink-and-grow", c.N(900, 90000), false, func(i int, r *rng.R) { c13ShrinkGrow(c, i, r) })
 	// typed container flavours (with nil entries) inside native trees
-	c.Cases("typed-flavours", 6, true, func(i int, r *rng.R) {
+	c.Cases("typed-flavours", 8, true, func(i int, r *rng.R) {
 		o1, l1 := at.NewObject("x", 1), at.NewList(1)
 		var nat any
 		var want *spec.Spec
@@ -173,6 +173,15 @@ func runC13(c *fw.Ctx) {
 		case 3:
 			nat = map[string]any{"m": map[string]at.List{"n": nil}, "t": []int{1, 2}}
 			want = spec.ObjV("m", spec.ObjV("n", spec.NilV()), "t", spec.ListV(spec.IntV(1), spec.IntV(2)))
+		case 6:
+			// nil slices and maps of every typed flavour below the top level: empty containers like their non-nil twins
+			nat = []any{[]int(nil), []string(nil), []float64(nil), []bool(nil), []at.Object(nil), []at.List(nil), []any(nil), map[string]int(nil), map[string]string(nil), map[string]float64(nil),
+				map[string]bool(nil), map[string]at.Object(nil), map[string]at.List(nil), map[string]any(nil)}
+			L, O := spec.ListV, spec.ObjV
+			want = L(L(), L(), L(), L(), L(), L(), L(), O(), O(), O(), O(), O(), O(), O())
+		case 7:
+			nat = map[string]any{"li": []int(nil), "ms": map[string]string(nil), "in": []any{[]float64(nil), map[string]any{"deep": map[string]bool(nil), "l": []at.List(nil)}}, "lo": []at.Object(nil)}
+			want = spec.ObjV("li", spec.ListV(), "ms", spec.ObjV(), "in", spec.ListV(spec.ListV(), spec.ObjV("deep", spec.ObjV(), "l", spec.ListV())), "lo", spec.ListV())
 		case 4:
 			nat = []any{make([]at.Object, 3), map[string]float64{"f": 0.5}}
 			want = spec.ListV(spec.ListV(spec.NilV(), spec.NilV(), spec.NilV()), spec.ObjV("f", spec.FloatV(0.5)))
